@@ -361,7 +361,66 @@ func genC03(c *w1Case, r *simrt.Rng) {
 	c.burst = r.Chance(0.2)
 }
 
+// genC04Hats: the state actions triggered by hat axes of type "action" (as the shipped gamepad configurations
+// do) instead of keys; no action key exists in these runs, so the pair rule never applies.
+func genC04Hats(c *w1Case, r *simrt.Rng) {
+	o := genOpts{nKeys: [2]int{2, 6}, nMaps: [2]int{1, 3}, notePool: intsRange(0, 127), offsets: true, exitLen: -1, defaults: true,
+		unmapProb: 0.2, remapProb: 0.4, handlers: 1}
+	c.d = baseDesc(r, o)
+	pairs := [][2]string{{"octave_up", "octave_down"}, {"semitone_up", "semitone_down"}, {"channel_up", "channel_down"}, {"mapping_up", "mapping_down"}}
+	names := pickN(r, hatAxes, r.Range(1, 3))
+	var axes []model.AxisDesc
+	for i, n := range names {
+		pr := pairs[(i+r.Intn(4))%4]
+		a := model.AxisDesc{Name: n, Code: absCode(n), Type: "action", Action: sp(pr[0]), ActionNeg: sp(pr[1]), Min: -1, Max: 1, Deadzone: fp(0), Flip: r.Chance(0.4)}
+		if r.Chance(0.2) {
+			a.Action, a.ActionNeg = sp(pr[1]), sp(pr[0])
+		}
+		if r.Chance(0.15) {
+			a.ActionNeg = nil // one-sided
+		}
+		axes = append(axes, a)
+	}
+	for mi := range c.d.Mappings {
+		c.d.Mappings[mi].Analog = []model.SubAnalog{{Sub: "", Axes: append([]model.AxisDesc(nil), axes...)}}
+	}
+	c.state = true
+	g := newScriptGen(r, c.d)
+	n := r.Range(8, 60)
+	pos := map[uint16]int32{}
+	for i := 0; i < n; i++ {
+		if r.Chance(0.55) {
+			a := axes[r.Intn(len(axes))]
+			// one hat at a time: bring the others back to rest first
+			for _, b := range axes {
+				if b.Code != a.Code && pos[b.Code] != 0 {
+					g.out = append(g.out, model.Event{Kind: "abs", Code: b.Code, Value: 0})
+					pos[b.Code] = 0
+				}
+			}
+			v := []int32{-1, 0, 1}[r.Intn(3)]
+			if g.nOct+g.nSemi > 150 {
+				v = 0
+			}
+			g.nOct++
+			g.out = append(g.out, model.Event{Kind: "abs", Code: a.Code, Value: v})
+			pos[a.Code] = v
+		} else {
+			g.steps(1, 1, 0, 1, false)
+		}
+	}
+	for _, b := range axes {
+		g.out = append(g.out, model.Event{Kind: "abs", Code: b.Code, Value: 0})
+	}
+	g.releaseAll()
+	c.script = g.out
+}
+
 func genC04(c *w1Case, r *simrt.Rng, thorough bool) {
+	if r.Chance(0.12) {
+		genC04Hats(c, r)
+		return
+	}
 	o := genOpts{nKeys: [2]int{3, 10}, nMaps: [2]int{1, 3}, notePool: intsRange(0, 127), offsets: true, actions: transposeActions, exitLen: -1, defaults: true,
 		unmapProb: 0.2, remapProb: 0.5, handlers: 1}
 	c.d = baseDesc(r, o)
